@@ -35,7 +35,28 @@ type c08 struct{}
 
 func (c08) Name() string { return "C08" }
 
+// lookupClass hands out the SAME *Project for an extension on every call, as
+// xgomod.Module.LookupClass and the registry of x/build do (anything cached by
+// project pointer inside the compiler therefore survives from one compile to
+// the next).
+var projectTable = map[string]*modfile.Project{}
+
 func lookupClass(ext string) (c *modfile.Project, ok bool) {
+	if c, ok = projectTable[ext]; ok {
+		return c, true
+	}
+	c, ok = newProject(ext)
+	if ok {
+		for _, w := range c.Works {
+			projectTable[w.Ext] = c
+		}
+		projectTable[c.Ext] = c
+		projectTable[ext] = c
+	}
+	return
+}
+
+func newProject(ext string) (c *modfile.Project, ok bool) {
 	switch ext {
 	case ".tgmx", ".tspx":
 		return &modfile.Project{
@@ -228,6 +249,29 @@ func genPackage(plan *simrt.Source) *pkgSrc {
 func genClassProject(plan *simrt.Source) *pkgSrc {
 	p := &pkgSrc{name: "generated-classes", files: map[string]string{}}
 	names := []string{"Kai", "Bob", "Amy", "Zed", "Moe", "Ann"}
+	if plan.Chance(400) {
+		// framework cl/internal/spx3 (*_spx.gox): work classes that name framework
+		// types themselves (Handler), next to what the class table gives them
+		p.name = "generated-classes-spx3"
+		n := 1 + plan.Draw(4)
+		main := "var (\n"
+		seen := map[string]bool{}
+		for i := 0; i < n; i++ {
+			nm := names[(i*2+plan.Draw(3))%len(names)]
+			if seen[nm] {
+				continue
+			}
+			seen[nm] = true
+			main += "\t" + nm + " " + nm + "\n"
+			body := fmt.Sprintf("echo \"%s %d\"\nvar h Handler = this\necho h.classfname\n", nm, i)
+			if plan.Chance(200) {
+				body += fmt.Sprintf("undefinedCall%d()\n", i)
+			}
+			p.files[nm+"_spx.gox"] = body
+		}
+		p.files["main_spx.gox"] = main + ")\n\nrun\n"
+		return p
+	}
 	n := 1 + plan.Draw(5)
 	var game strings.Builder
 	game.WriteString("var (\n")
